@@ -45,12 +45,16 @@ def run(ctx):
             nthreads = rng.choice([2, 4, 8])
             nmsgs = rng.choice([30, 50] if ctx.quick else [50, 150, 400])
             inject = 1 if rng.random() < 0.7 else 0
+            slow = 1 if i % 3 == 2 else 0           # back-pressure: small kernel buffers + a slowly reading peer
+            if slow:
+                nmsgs = min(nmsgs, 40)
+                inject = 0
             seed = rng.getrandbits(30)
             out = os.path.join(tmpd, "r%d.json" % i)
             env = dict(os.environ, PYTHONPATH='')
             try:
                 r = subprocess.run([sys.executable, os.path.join(VERIF, "native", "reactor_push.py"), ctx.repo, which, str(seed), str(nthreads),
-                                    str(nmsgs), str(inject), out], capture_output=True, text=True, timeout=300, env=env, cwd=tmpd)
+                                    str(nmsgs), str(inject), out, str(slow)], capture_output=True, text=True, timeout=300, env=env, cwd=tmpd)
             except subprocess.TimeoutExpired:
                 ctx.count("runs_watchdog_fired")
                 continue
@@ -60,8 +64,10 @@ def run(ctx):
             os.remove(out)
             if res.get('harness_error'):
                 raise Inconclusive("reactor run harness error: %s" % res['harness_error'])
-            ctx.case(repr((which, nthreads, nmsgs, inject, seed)), nontrivial=nthreads >= 2)
+            ctx.case(repr((which, nthreads, nmsgs, inject, slow, seed)), nontrivial=nthreads >= 2)
             ctx.count("runs_" + which)
+            if slow:
+                ctx.count("runs_with_back_pressure_slow_peer_small_buffers")
             ctx.count("messages_checked", res['messages_parsed'])
             ctx.count("bytes_received", res['received_bytes'])
             ctx.count("yield_injection_line_events", res['line_events'])
@@ -87,4 +93,5 @@ def run(ctx):
         import shutil
         shutil.rmtree(tmpd, ignore_errors=True)
     ctx.floor_distinct = 10 if ctx.quick else 300
-    ctx.floor_counters = {"runs_asyncio": 4, "runs_twisted": 4, "messages_checked": 1000, "yield_injection_line_events": 1000}
+    ctx.floor_counters = {"runs_asyncio": 4, "runs_twisted": 4, "messages_checked": 1000, "yield_injection_line_events": 1000,
+                          "runs_with_back_pressure_slow_peer_small_buffers": 3}
